@@ -62,6 +62,74 @@ def supported(view: GrammarView):
     return None
 
 
+def g_ok_clauses(g):
+    """Violations of the clauses of g_ok (specs/vocab.py), evaluated with the library's own
+    get_distance_to_terminal for wrapper types (that function is proved against the gdist equations)."""
+    from geneticengine.grammar.utils import get_arguments, is_generic, is_annotated, is_generic_list, is_union, is_generic_tuple
+
+    out = []
+    tbl = g.distanceToTerminal
+    wrapper = lambda t: is_generic(t) or is_annotated(t) or is_generic_list(t) or is_union(t)
+
+    def defined(t, depth=0):
+        # gdist_defined: every leaf reachable through the wrappers has a table entry, wrappers have >= 1 parameter
+        if depth > 20:
+            return False
+        if wrapper(t):
+            ps = list(getattr(t, "__args__", ()))
+            if is_annotated(t):
+                ps = ps[:1]
+            if not (is_annotated(t) or is_generic_list(t) or is_union(t) or is_generic_tuple(t)):
+                return False  # a generic form create_node cannot build (dict[...], set[...], ...)
+            return len(ps) >= 1 and all(defined(p_, depth + 1) for p_ in ps if p_ is not type(None))
+        return t in tbl and (t in (int, float, bool) or t in g.all_nodes)
+
+    for b in (int, float, bool):
+        if tbl.get(b) != 0:
+            out.append(("base-type-zero", f"distanceToTerminal[{b.__name__}] = {tbl.get(b)!r}, expected 0"))
+    for t, d in tbl.items():
+        if not (isinstance(d, int) and d >= 0):
+            out.append(("non-negative", f"distanceToTerminal[{tname(t)}] = {d!r}"))
+    for t in g.all_nodes:
+        if wrapper(t) or not isinstance(t, type):
+            out.append(("registered-nodes-are-classes", f"all_nodes contains {t!r}"))
+    for t in tbl:
+        if not wrapper(t) and t not in (int, float, bool, str) and t not in g.all_nodes:
+            out.append(("table-symbols-registered", f"distanceToTerminal has an entry for {tname(t)} which is not in all_nodes"))
+    for a_, alts in g.alternatives.items():
+        if not alts:
+            out.append(("abstract-has-production-list", f"alternatives[{tname(a_)}] is empty"))
+        for p_ in alts:
+            if p_ not in tbl or p_ not in g.all_nodes or wrapper(p_):
+                out.append(("production-registered", f"production {tname(p_)} of {tname(a_)} is not a registered class with a table entry"))
+            elif tbl[a_] > tbl[p_]:
+                out.append(("abstract-at-most-each-production", f"distance[{tname(a_)}] = {tbl[a_]} > distance[{tname(p_)}] = {tbl[p_]}"))
+        if a_ in tbl and tbl[a_] < 1000000 and alts and not any(p_ in tbl and tbl[p_] == tbl[a_] for p_ in alts):
+            out.append(("abstract-minimum-attained", f"distance[{tname(a_)}] = {tbl[a_]} is attained by no production {[(tname(p_), tbl.get(p_)) for p_ in alts]}"))
+    for c in g.all_nodes:
+        if c in g.alternatives or c in (int, float, bool) or wrapper(c) or not isinstance(c, type):
+            continue
+        if c is str or is_abs(c):
+            continue
+        if c not in tbl:
+            out.append(("concrete-has-entry", f"{tname(c)} has no table entry"))
+            continue
+        if tbl[c] < 1:
+            out.append(("concrete-at-least-one", f"distance[{tname(c)}] = {tbl[c]}"))
+        for n_, ft in get_arguments(c):
+            if not defined(ft):
+                out.append(("field-type-defined", f"{tname(c)}.{n_}: {tname(ft)} is not defined in the table"))
+                continue
+            try:
+                fd = g.get_distance_to_terminal(ft)
+            except Exception as ex:  # noqa
+                out.append(("field-type-defined", f"{tname(c)}.{n_}: get_distance_to_terminal raised {type(ex).__name__}"))
+                continue
+            if tbl[c] < 1000000 and tbl[c] < 1 + fd:
+                out.append(("concrete-above-each-field", f"distance[{tname(c)}] = {tbl[c]} < 1 + distance({n_}: {tname(ft)}) = {1 + fd}"))
+    return out
+
+
 def check_grammar(name, classes, start, mode, F: Findings, stats):
     view = GrammarView(classes, start)
     stats["evaluations"] += 1
@@ -124,6 +192,12 @@ def check_grammar(name, classes, start, mode, F: Findings, stats):
         )
     if any(not x for x in exact.values()) and not any(k.startswith("rt:C05:distance:") for k in F.best):
         F.add("distance:unattributed", f"{tag}: reported {[(s.__name__, g.distanceToTerminal.get(s)) for s, x in exact.items() if not x]} differ from independent minimum depths", size)
+
+    # 2b. the local equations (g_ok of specs/vocab.py) that the create_node / decider proofs ASSUME of the grammar:
+    # this is the guarantee side of that assume-guarantee link, checked clause by clause on the real tables
+    if not mode:
+        for clause, msg in g_ok_clauses(g):
+            F.add(f"g_ok:{clause}", f"{tag}: {msg}", size)
 
     # 3. recursion
     lib_rec = {s for s in g.recursive_prods if s in cls_nodes}
